@@ -1,5 +1,6 @@
 import ElkVerif.Proofs.MiniSoundBMain
 import ElkVerif.Proofs.MiniSoundBEmbed
+import ElkVerif.Proofs.MiniCheckMono
 /-!
 # C01 / C02, stages B–D — accepted programs never crash the interpreter; values have their static types
 
@@ -150,6 +151,22 @@ theorem preservation_B (k : Nat) (p : Prog) (h : checkProg k p = true) (fuel : N
     rw [hv] at ho
     exact ho
 
+/-- "the checker accepts `p`": at some checker fuel — equivalently, by `checker_fuel_mono`, at every
+larger one, so acceptance does not depend on the fuel a caller happens to pick. -/
+def Accepted (p : Prog) : Prop := ∃ k, checkProg k p = true
+
+theorem checker_fuel_mono (k j : Nat) (p : Prog) (h : checkProg k p = true) :
+    checkProg (k + j) p = true :=
+  checkProg_mono k j p h
+
+/-- C01 in its fuel-free form: an accepted program, run with any budget, finishes with a value,
+raises an Elk error, or runs out of budget. -/
+theorem sound_accepted (p : Prog) (h : Accepted p) (fuel : Nat) :
+    (∃ v, (runProg fuel p).1 = .val v) ∨ (∃ v, (runProg fuel p).1 = .thrw v) ∨
+      (runProg fuel p).1 = .timeout := by
+  obtain ⟨k, hk⟩ := h
+  exact sound_C k p hk fuel
+
 /-- **The extended checker extends stage A**: whatever `check` (Props/C01) accepts, `checkExpr`
 accepts with the corresponding type, at the same fuel, for any method table. -/
 theorem checker_extends_A (defs : List Def) (g : TEnv) (k : Nat) (e : Expr) (t : STy)
@@ -197,6 +214,7 @@ def progD : Prog :=
        .print (.callClo (.var "add") [.callDef "fact" [.int 4]])] }
 
 example : checkProg 30 progB = true := by decide
+example : Accepted progB := ⟨30, by decide⟩
 example : (runProg 40 progB).2.lines = ["1", "2", "3", "4", "3"] := by decide
 example : ((runProg 40 progB).1 matches .val .nil) = true := by decide
 example : checkProg 30 progD = true := by decide
